@@ -145,6 +145,11 @@ class Interp:
                 except ValueError as e:
                     raise Uninterp(str(e))
             raise Uninterp('operator ' + type(op).__name__)
+        if isinstance(op, ast.MatMult) and isinstance(a, list) and isinstance(b, list) and len(a) == len(b):
+            tot = a[0] * b[0]
+            for x, y in zip(a[1:], b[1:]):
+                tot = tot + x * y
+            return tot
         if isinstance(a, list) and isinstance(b, list):
             if len(a) != len(b):
                 raise Uninterp('shape mismatch')
@@ -275,6 +280,30 @@ def check(model, rep):
                        ('box is rejected already on equality (`>=`): boundary contact would count as free' if strictness
                         else 'condition is not of the form NOT(lhs > rhs)'), line=node.lineno if hasattr(node, 'lineno') else lp.lineno)
                 continue
+            # a sound extra rejection: bounding spheres |m| > |h| + |L| (written with vector norms)
+            def norm_arg(e_):
+                if isinstance(e_, ast.Call) and src(e_.func) in ('np.linalg.norm', 'mr.Norm', 'fmr.Norm', 'ling.norm') and len(e_.args) == 1:
+                    try:
+                        v_ = it.ev(e_.args[0])
+                    except Uninterp:
+                        return None
+                    if isinstance(v_, Obj):
+                        v_ = it.vec(v_)
+                    return v_ if isinstance(v_, list) and len(v_) == 3 else None
+                return None
+
+            def same_up_to_sign(u, v):
+                return u == v or u == [-x for x in v]
+            nl = norm_arg(form[0])
+            if nl is not None and isinstance(form[1], ast.BinOp) and isinstance(form[1].op, ast.Add):
+                n1_, n2_ = norm_arg(form[1].left), norm_arg(form[1].right)
+                M_ = [(Poly.sym('p1_%d' % i_) + Poly.sym('p2_%d' % i_)) / 2 - Poly.sym('c_%d' % i_) for i_ in range(3)]
+                L_ = [(Poly.sym('p1_%d' % i_) - Poly.sym('p2_%d' % i_)) / 2 for i_ in range(3)]
+                H_ = [Poly.sym('h_%d' % i_) for i_ in range(3)]
+                if n1_ is not None and n2_ is not None and same_up_to_sign(nl, M_) and (
+                        (same_up_to_sign(n1_, H_) and same_up_to_sign(n2_, L_)) or (same_up_to_sign(n1_, L_) and same_up_to_sign(n2_, H_))):
+                    rep.ob('R15.1', fi, 'bounding-sphere pre-rejection ' + text[:70], True, 'sound: |m| > |h| + |L| implies disjoint', line=getattr(node, 'lineno', lp.lineno))
+                    continue
             try:
                 A = it.scalar(it.ev(form[0]))
                 B = it.scalar(it.ev(form[1]))
